@@ -272,7 +272,14 @@ func (c *Classifier) Normalize(in []byte) []byte {
 		return buf.Bytes()
 	}
 
+	// The first token need not be on line 1: a first line that leaves no token and
+	// no EOL token behind (a hyphen-joined word that cleans up to nothing, or a
+	// notice split by a hyphenated line break) is followed by a token on line 2.
 	prevLine := 1
+	for l := prevLine; l < doc.Tokens[0].Line; l++ {
+		buf.WriteString(eol)
+	}
+	prevLine = doc.Tokens[0].Line
 	// An EOL token in first position (the first line holds no words) is written
 	// by the line-advance logic below like every other EOL token; writing it
 	// here as well would push all following text one line down.
